@@ -1647,6 +1647,12 @@ class Interp:
             if alts_a is None or any(t[0] == 'any' for t in alts_a):
                 if kb == 'ref' and not self.has_custom_eq(b.cls):
                     return a.e == Val.r(b.e)
+                if kb == 'ref' and b.cls not in ('list', 'dict', 'tuple'):
+                    # identical, or an object of the same class that is structurally equal
+                    self.st.eqv_used = True
+                    self.eqv_facts(Val.rv(a.e), b.e, b.cls, b.cls)
+                    return z3.Or(a.e == Val.r(b.e),
+                                 z3.And(Val.is_r(a.e), cls_of(Val.rv(a.e)) == self.reg.cid(b.cls), eqv(Val.rv(a.e), b.e)))
                 raise Unsupported('== on an untyped value')
             if kb == 'ref':
                 parts = []
@@ -2753,13 +2759,18 @@ class Interp:
         # what was learnt about the generic element (typing, callee postconditions) holds for
         # every element of the segment
         pats = self.comp_patterns(seg, K)
+        elem_facts = []
         for p in oks:
-            if p['facts']:
+            if len(p['facts']) > 1:
                 rng = z3.And(0 <= K, K < length, *p['dec'])
-                st.fact(self.qf(True, K, z3.Implies(rng, z3.And(*p['facts'][1:])), pats) if len(p['facts']) > 1 else z3.BoolVal(True))
+                st.fact(self.qf(True, K, z3.Implies(rng, z3.And(*p['facts'][1:])), pats))
+                elem_facts.append(z3.Implies(z3.And(*p['dec']) if p['dec'] else z3.BoolVal(True), z3.And(*p['facts'][1:])))
         c = self.register_comp(seg, K, length, cond, val, kind)
-        if noraise is not None:
-            c.noraise = noraise if K.eq(c.K) else z3.substitute(noraise, (K, c.K))
+        known = ([noraise] if noraise is not None else []) + elem_facts
+        if known:
+            kf = z3.And(*known)
+            kf = kf if K.eq(c.K) else z3.substitute(kf, (K, c.K))
+            c.noraise = kf if c.noraise is None else z3.And(c.noraise, kf)
         return c
 
     def comp_patterns(self, seg, j):
